@@ -310,7 +310,7 @@ class Heap:
         t = z3.Const('t!c', Str)
         isn = lambda n: born(n) == e
         ax = [
-            z3.ForAll([q, z], H2.mem(q, z) == z3.If(isn(q), z3.And(H.mem(orig(q), orig(z)), z == cp(e, orig(z))), H.mem(q, z)),
+            z3.ForAll([q, z], H2.mem(q, z) == z3.If(isn(q), z3.And(H.mem(orig(q), orig(z)), z == cp(e, orig(z)), q == cp(e, orig(q))), H.mem(q, z)),
                       patterns=[H2.mem(q, z)]),
             z3.ForAll([q, z], H2.pos(q, z) == z3.If(isn(q), H.pos(orig(q), orig(z)), H.pos(q, z)), patterns=[H2.pos(q, z)]),
             z3.ForAll([q], H2.len(q) == z3.If(isn(q), H.len(orig(q)), H.len(q)), patterns=[H2.len(q)]),
